@@ -75,4 +75,87 @@ theorem det_of_echelon (V B : Matrix (Fin n) (Fin n) R) (σ : Equiv.Perm (Fin n)
     simp [L]
   rw [this]; ring
 
+/-- a row that is a combination of the basis rows before it makes the determinant vanish: rows
+`t < k` as in `det_of_echelon`, row `k` without a term in `B k`, rows `t > k` arbitrary -/
+theorem det_zero_of_dependent (V B : Matrix (Fin n) (Fin n) R) (k : Fin n) (f : Fin n → R)
+    (c : Fin n → Fin n → R)
+    (hlt : ∀ t, t < k → V t = f t • B t + ∑ s ∈ Finset.univ.filter (· < t), c t s • B s)
+    (hk : V k = ∑ s ∈ Finset.univ.filter (· < k), c k s • B s) :
+    V.det = 0 := by
+  -- V = L * B' with B' t = B t for t ≤ k and B' t = V t for t > k; L k k = 0
+  let B' : Matrix (Fin n) (Fin n) R := fun t => if t ≤ k then B t else V t
+  let L : Matrix (Fin n) (Fin n) R := fun t s =>
+    if t < k then (if s < t then c t s else if s = t then f t else 0)
+    else if t = k then (if s < t then c t s else 0)
+    else (if s = t then 1 else 0)
+  have hL : L.IsLowerTriangular := by
+    intro i j hij
+    have hij' : i < j := hij
+    simp only [L]
+    split
+    · rw [if_neg (by omega), if_neg (by omega)]
+    · split
+      · rw [if_neg (by omega)]
+      · rw [if_neg (by omega)]
+  have hB's : ∀ t s : Fin n, s < t → t ≤ k → B' s = B s := by
+    intro t s hst htk
+    simp only [B']; rw [if_pos (by omega)]
+  have hVL : V = L * B' := by
+    ext t col
+    rw [Matrix.mul_apply]
+    rcases lt_trichotomy t k with htk | htk | htk
+    · rw [hlt t htk]
+      simp only [Pi.add_apply, Pi.smul_apply, Finset.sum_apply, smul_eq_mul]
+      have : ∑ s, L t s * B' s col =
+          ∑ s ∈ Finset.univ.filter (· < t), c t s * B s col + f t * B t col := by
+        rw [← Finset.sum_filter_add_sum_filter_not Finset.univ (· < t)]
+        congr 1
+        · apply Finset.sum_congr rfl
+          intro s hs
+          have hst : s < t := (Finset.mem_filter.mp hs).2
+          simp only [L, if_pos htk, if_pos hst]
+          rw [hB's t s hst (le_of_lt htk)]
+        · rw [Finset.sum_eq_single t]
+          · simp only [L, if_pos htk, lt_irrefl, if_false, if_true]
+            have : B' t = B t := by simp only [B']; rw [if_pos (le_of_lt htk)]
+            rw [this]
+          · intro s hs hne
+            have : ¬ s < t := (Finset.mem_filter.mp hs).2
+            simp only [L, if_pos htk, if_neg this, if_neg hne, zero_mul]
+          · intro ht
+            exfalso; apply ht
+            rw [Finset.mem_filter]
+            exact ⟨Finset.mem_univ _, lt_irrefl t⟩
+      rw [this]; ring
+    · subst htk
+      rw [hk]
+      simp only [Finset.sum_apply, Pi.smul_apply, smul_eq_mul]
+      rw [← Finset.sum_filter_add_sum_filter_not Finset.univ (· < t)]
+      have h2 : ∑ s ∈ Finset.univ.filter (fun s => ¬ s < t), L t s * B' s col = 0 := by
+        apply Finset.sum_eq_zero
+        intro s hs
+        have : ¬ s < t := (Finset.mem_filter.mp hs).2
+        simp only [L, lt_irrefl, if_false, if_true, if_neg this, zero_mul]
+      rw [h2, add_zero]
+      apply Finset.sum_congr rfl
+      intro s hs
+      have hst : s < t := (Finset.mem_filter.mp hs).2
+      simp only [L, lt_irrefl, if_false, if_true, if_pos hst]
+      rw [hB's t s hst (le_refl _)]
+    · rw [Finset.sum_eq_single t]
+      · have h1 : ¬ t < k := by omega
+        have h2 : ¬ t = k := by omega
+        simp only [L, if_neg h1, if_neg h2, if_true, one_mul]
+        simp only [B']; rw [if_neg (by omega)]
+      · intro s _ hne
+        have h1 : ¬ t < k := by omega
+        have h2 : ¬ t = k := by omega
+        simp only [L, if_neg h1, if_neg h2, if_neg hne, zero_mul]
+      · intro ht; exact absurd (Finset.mem_univ t) ht
+  rw [hVL, det_mul, det_of_isLowerTriangular L hL]
+  have : ∏ i, L i i = 0 := by
+    apply Finset.prod_eq_zero (Finset.mem_univ k)
+    simp [L]
+  rw [this, zero_mul]
+
 end Ymq.IntMat
